@@ -19,6 +19,8 @@ wait $p1 || fail=1; wait $p2 || fail=1; wait $p3 || fail=1; wait $p4 || fail=1
 b c17-spec c17drv "+nightly" "specialized" "" & p5=$!
 b c17-spec-sync c17drv "+nightly" "specialized sync" "" & p6=$!
 ( cd "$ROOT/obligations" && CARGO_TARGET_DIR="$ROOT/target/obligations" cargo build --offline >"$ROOT/target/setup-obligations.log" 2>&1 ) || fail=1
+# C16 leg 2c: the harness against the rewritten copy of the crate (a failure here only disables that leg, with a note)
+"$ROOT/scripts/c16-intercept-build.sh" /repo "$ROOT/harness" "$ROOT/target/c16-intercept-src" "$ROOT/target/intercept" >"$ROOT/target/setup-intercept.log" 2>&1 && echo "setup: intercept built" || echo "setup: intercept configuration not built (C16 leg 2c will be skipped with a note), see $ROOT/target/setup-intercept.log"
 wait $p5 || fail=1; wait $p6 || fail=1
 # the reference model must reproduce the compliance fixtures
 "$ROOT/target/base/release/jpv" bind quick || fail=1
